@@ -284,17 +284,18 @@ type slot struct {
 }
 
 type world struct {
-	t         *testing.T
-	mn        mocknet.Mocknet
-	slots     []*slot
-	ids       []peer.ID
-	scratch   string
-	ref       []refOp // operations in submission order (acknowledged, or flagged maybe)
-	oldL      *slot   // isolated former leader (isoL deviation)
-	lostTries int     // rpclost: attempts of the next operation whose response is lost
-	viol      []finding
-	states    map[string]bool
-	trans     int
+	t        *testing.T
+	mn       mocknet.Mocknet
+	slots    []*slot
+	ids      []peer.ID
+	scratch  string
+	ref      []refOp       // operations in submission order (acknowledged, or flagged maybe)
+	oldL     *slot         // isolated former leader (isoL deviation)
+	lostSvc  *clus.ConsSvc // rpclost: the service that loses responses during the next operation
+	lostBase int32         // its Failed counter before the operation
+	viol     []finding
+	states   map[string]bool
+	trans    int
 }
 
 type refOp struct {
@@ -501,21 +502,16 @@ func (w *world) doOp(o op) bool {
 		err = target.rp.Cons.LogUnpin(ctx, api.PinCid(cidOf(o.C)))
 	}
 	w.trans++
-	// rpclost: every injected failure stands for an attempt that may really
-	// have been committed by the leader although the caller saw an error
-	tries := commitRetries + 1
-	for k := 0; k < w.lostTries && k < tries; k++ {
-		dup := ro
-		dup.maybe = true
-		w.ref = append(w.ref, dup)
-	}
-	if w.lostTries >= tries {
-		// no attempt beyond the lost ones was made
-		if err == nil {
-			w.fail("ack-without-successful-attempt", "operation %v acknowledged although every redirected attempt returned an error", o)
+	// rpclost: every injected failure that was really hit stands for an
+	// attempt that the leader may have committed although the caller saw an
+	// error. (How the call ends is not prescribed: after failed redirects the
+	// submitting peer may find itself leader and commit the operation.)
+	if w.lostSvc != nil {
+		for k := int32(0); k < w.lostSvc.Failed.Load()-w.lostBase; k++ {
+			dup := ro
+			dup.maybe = true
+			w.ref = append(w.ref, dup)
 		}
-		w.viol = append(w.viol, finding{"info:op-error", fmt.Sprintf("%v failed: %v", o, err)})
-		return true
 	}
 	if err != nil {
 		ro.maybe = true
@@ -700,13 +696,13 @@ func run(t *testing.T, h history) (outcome string, viol []finding, states map[st
 							inj.FailN.Store(int32(d.J))
 							o.At = "F"
 							if d.Kind == "rpclost" {
-								w.lostTries = d.J
+								w.lostSvc, w.lostBase = inj, inj.Failed.Load()
 							}
 						}
 					}
 				}
 				ok := w.doOp(o)
-				w.lostTries = 0
+				w.lostSvc = nil
 				if inj != nil {
 					inj.FailN.Store(0)
 					if inj.Failed.Load() == 0 {
@@ -831,6 +827,15 @@ func (w *world) checkTracker() {
 	for _, o := range w.ref {
 		valid[render(o)] = true
 	}
+	// The hand-over is an asynchronous RPC per applied entry: the text
+	// promises that every applied change reaches the tracker with the stored
+	// content, not the order in which two changes applied back to back arrive.
+	// Compared as multisets.
+	canon := func(l []string) string {
+		l = append([]string{}, l...)
+		sort.Strings(l)
+		return strings.Join(l, "\n")
+	}
 	allowed := map[string]bool{}
 	var want string
 	for _, v := range variantsOf(w.ref) {
@@ -839,7 +844,7 @@ func (w *world) checkTracker() {
 			l = append(l, render(o))
 		}
 		want = strings.Join(l, "\n")
-		allowed[want] = true
+		allowed[canon(l)] = true
 	}
 	for _, s := range w.slots {
 		var got []string
@@ -856,8 +861,8 @@ func (w *world) checkTracker() {
 				w.fail("tracker-call-mismatch", "peer %d handed its tracker a change that matches no committed operation: %s", s.idx, g)
 			}
 		}
-		if !s.disturbed && !allowed[strings.Join(got, "\n")] {
-			w.fail("tracker-sequence-differs", "peer %d (never restarted or partitioned) handed its tracker\n%s\nbut the committed sequence is\n%s", s.idx, strings.Join(got, "\n"), want)
+		if !s.disturbed && !allowed[canon(got)] {
+			w.fail("tracker-calls-differ", "peer %d (never restarted or partitioned) handed its tracker\n%s\nbut the committed sequence is\n%s", s.idx, strings.Join(got, "\n"), want)
 		}
 	}
 }
